@@ -27,6 +27,13 @@ def pick(a, which='first', other=None, flag=False):
     return a if which == 'first' and not flag else (other if other is not None else a * 0)
 def twice(a):
     return a * 2
+def tcode(a, *vals, **kw):
+    # tells apart literals that are == but of different type (1, 1.0, True)
+    codes = {'bool': 2, 'int': 3, 'float': 5, 'str': 7, 'NoneType': 11}
+    tot = 0
+    for i, v in enumerate(list(vals) + [kw[k] for k in sorted(kw)]):
+        tot += (i + 1) * codes.get(type(v).__name__, 13)
+    return a * 0 + tot
 """
 
 
@@ -57,7 +64,15 @@ def _tree(rng, depth, numeric=True):
         n = 2 if rng.random() < 0.15 else 1
         return ast.Compare(_tree(rng, depth - 1), [rng.choice(CMPOPS)() for _ in range(n)],
                            [_tree(rng, depth - 1) for _ in range(n)])
-    fn = rng.choice(["add3", "pick", "twice"])
+    fn = rng.choice(["add3", "pick", "twice", "tcode"])
+    if fn == "tcode":
+        # literals that compare equal but differ in type, in one call (and next to an equal literal in the
+        # first argument)
+        grp = rng.choice([[1, 1.0, True], [0, 0.0, False], [2, 2.0], [3, 3.0]])
+        first = ast.BinOp(_tree(rng, depth - 1), rng.choice([ast.Add, ast.Mult, ast.Sub])(), ast.Constant(rng.choice(grp)))
+        args = [first] + [ast.Constant(rng.choice(grp)) for _ in range(rng.randint(1, 2))]
+        kws = [ast.keyword("k", ast.Constant(rng.choice(grp + [None])))] if rng.random() < 0.5 else []
+        return ast.Call(ast.Name("tcode", ast.Load()), args, kws)
     if fn == "twice":
         return ast.Call(ast.Name("twice", ast.Load()), [_tree(rng, depth - 1)], [])
     if fn == "add3":
@@ -139,13 +154,13 @@ def _formula(c, src=None):
 def _extra():
     ns = {}
     exec(USER, ns)
-    return {k: v for k, v in ns.items() if k in ("add3", "pick", "twice")}
+    return {k: v for k, v in ns.items() if k in ("add3", "pick", "twice", "tcode")}
 
 
 def model_cmd(c):
     import core
     return core.sshow(["c12", _formula(c), dm.frame_sexp(c["frame"]), "drop",
-                       [["add3", ["opaque"]], ["pick", ["opaque"]], ["twice", ["opaque"]]]])
+                       [["add3", ["opaque"]], ["pick", ["opaque"]], ["twice", ["opaque"]], ["tcode", ["opaque"]]]])
 
 
 def impl_obs(c):
